@@ -147,6 +147,11 @@ def run_prog(prog):
             stack[-1] = apply_op(stack[-1], ins[1], ins[2:])
         elif t == "touch":
             touch(stack[-1])
+        elif t == "derive":
+            # use the value on top of the stack as the SOURCE of a derivation whose result is thrown away
+            # (the value itself stays): a URL never changes, whatever is derived from it
+            touch(stack[-1])
+            att(lambda: touch(apply_op(stack[-1], ins[1], ins[2:])))
         elif t == "join":
             ref = stack.pop()
             base = stack.pop()
